@@ -91,6 +91,8 @@ class FakeFS:
     def _norm(self, p):
         if not isinstance(p, str):
             raise TypeError("path must be str, not %r" % type(p))
+        if not p.startswith("/"):
+            p = posixpath.join(getattr(self, "cwd", "/cwd"), p)      # relative paths: against the working directory
         return posixpath.normpath(p)
 
     @native
@@ -188,12 +190,14 @@ class FakeFS:
 
     @native
     def glob(self, pat):
-        d = posixpath.dirname(pat)
+        d0 = posixpath.dirname(pat)
+        d = self._norm(d0) if d0 else getattr(self, "cwd", "/cwd")
         base = posixpath.basename(pat)
         out = []
         for k in list(self.files) + [x for x in self.dirs if x != "/"]:
             if posixpath.dirname(k) == d and fnmatch.fnmatchcase(posixpath.basename(k), base):
-                out.append(k)
+                # like glob.glob: results are spelled like the pattern (relative stays relative)
+                out.append(k if pat.startswith("/") else posixpath.join(d0, posixpath.basename(k)))
         return sorted(out)
 
     @native
@@ -274,7 +278,12 @@ class FakeOS:
         return self.fs.exists(p)
 
     def getcwd(self):
-        return self._cwd
+        return getattr(self.fs, "cwd", self._cwd)
+
+    def chdir(self, p):
+        if not self.fs.isdir(p):
+            raise FileNotFoundError(p)
+        self.fs.cwd = self.fs._norm(p)
 
     def listdir(self, p):
         return self.fs.listdir(p)
